@@ -12,6 +12,7 @@ sys.path.insert(0, str(Path(__file__).resolve().parent.parent / 'translate'))
 import lib  # noqa
 import c11_kernels  # noqa
 import c11_brick  # noqa
+import c11_glue  # noqa
 import c11_gen as G  # noqa
 
 PID = 'C11'
@@ -185,6 +186,139 @@ def validate_translator(ctx, model):
     return len(items), n_bad
 
 
+# ------------------------------- 1b. validation of the translated glue (gen/Glue.v)
+TINY_MESH = {'node_ids': [1, 2, 3, 4], 'coords': [[0, 0, 0], [1, 0, 0], [0, 1, 0], [0, 0, 1]],
+             'blocks': [['tet', [1], [[1, 2, 3, 4]]]]}
+MAGNITUDES = [0.0, -0.0, 1.0, -1.0, 2.5, -3.0, 1e-3, -1e-5, 7e-13, -7e-13, 1e-15, -2e-17, 5e-21,
+              -5e-21, 1e-300, -1e-300, 4e12, -4e12, 1e150, 5e-324]
+
+
+def validate_glue(ctx, translated):
+    """gen/Glue.v against the Python methods: _validate_metric on arrays whose values span many
+    orders of magnitude in ONE array (signs, zeros, +-0.0, denormals), both flags (bools and
+    falsy/truthy non-bools); _slot_answers on stored/asked option tuples that are equal, differ
+    at exactly one position, or differ in length."""
+    rng = ctx.rng
+    n = 60 if ctx.tier == 'quick' else 300
+    tasks = []
+    for i in range(n):
+        k = rng.choice([1, 2, 3, 5, 8])
+        if i % 3 == 0:
+            vals = [rng.choice(MAGNITUDES) for _ in range(k)]
+        elif i % 3 == 1:      # one huge value next to tiny ones
+            vals = [rng.choice([1.0, 3e8, 1e150])] + [rng.choice([-1, 1]) * 10.0 ** rng.randint(-30, -9)
+                                                      for _ in range(k)]
+            rng.shuffle(vals)
+        else:
+            vals = [rng.choice([-1, 1]) * rng.random() * 10.0 ** rng.randint(-3, 3) for _ in range(k)]
+        rs, ab = rng.choice([(False, False), (False, True), (True, False), (True, True),
+                             ('None', '1'), ('0', '0'), ('1', 'None')])
+        tasks.append({'id': len(tasks), 'kind': 'validate', 'mesh': TINY_MESH,
+                      'values': [float(v).hex() for v in vals], 'raise': rs, 'abs': ab})
+    n_val = len(tasks)
+    tuples = [[mo, r, a] for mo in c11_kernels.MODES for r in (False, True) for a in (False, True)] + \
+             [[r, a] for r in (False, True) for a in (False, True)]
+    pairs = []
+    for st in tuples:
+        pairs.append((st, list(st)))
+        for k in range(len(st)):
+            o = list(st)
+            o[k] = (not o[k]) if isinstance(o[k], bool) else rng.choice([m for m in c11_kernels.MODES if m != o[k]])
+            pairs.append((st, o))
+        pairs.append((st, st[1:] if len(st) == 3 else ['centroid'] + st))
+        pairs.append((None, list(st)))
+    for st, o in pairs:
+        tasks.append({'id': len(tasks), 'kind': 'slot_answers', 'mesh': TINY_MESH,
+                      'key': rng.choice(['area', 'volume', 'metric']), 'stored': st, 'options': o})
+    res = run_impl(ctx, tasks, 'glue')
+    truthy = lambda x: x in (True, '1')   # noqa
+    b = lambda x: 'true' if x else 'false'   # noqa
+
+    def optl(t):
+        return lib.coq_list([f'OFlag {b(x)}' if isinstance(x, bool) else f'OMode {lib.coq_str(x)}' for x in t])
+    items = []
+    crashed = []
+    for t in tasks:
+        r = res[t['id']]
+        if 'crash' in r:
+            crashed.append(t)
+            continue
+        if t['kind'] == 'validate':
+            ctx.count('glue:_validate_metric')
+            ctx.case(['glue', 'validate', t['values'], t['raise'], t['abs']],
+                     sample={'stream': 'translated _validate_metric vs the method',
+                             'values': [float.fromhex(v) for v in t['values']], 'raise': t['raise'],
+                             'abs': t['abs']} if t['id'] < 2 else None)
+            call = (f"validate_metric QOps {b(truthy(t['raise']))} {b(truthy(t['abs']))} "
+                    f"{lib.coq_list([qf(hexq(v)) for v in t['values']])}")
+            impl = 'None' if 'error' in r else \
+                '(Some ' + lib.coq_list([qf(hexq(v)) for v in r['values']]) + ')'
+            items.append(f"({t['id']}%nat, same_values ({call}) {impl})")
+        else:
+            ctx.count('glue:_slot_answers')
+            ctx.case(['glue', 'slot_answers', t['stored'], t['options']])
+            st = 'None' if t['stored'] is None else f"(Some {optl(t['stored'])})"
+            items.append(f"({t['id']}%nat, Bool.eqb (slot_answers {st} {optl(t['options'])}) {b(r['answers'])})")
+    text = (HEADER + 'From FV.C11 Require Import Slot.\nFrom FV.C11.gen Require Import Glue.\n'
+            'Fixpoint same_list (a b : list Q) : bool := match a, b with [] , [] => true '
+            '| x :: a\', y :: b\' => Qeq_bool x y && same_list a\' b\' | _, _ => false end.\n'
+            'Definition same_values (m i : option (list Q)) : bool := match m, i with None, None => true '
+            '| Some a, Some b => same_list a b | _, _ => false end.\n'
+            'Definition cases : list (nat * bool) := [' + ';\n'.join(items) + '].\n'
+            'Goal True. idtac "@@ failing". Abort.\n'
+            'Eval vm_compute in map fst (filter (fun c => negb (snd c)) cases).\n')
+    rc, out, err = ctx.coq_eval('GlueCases', text, timeout=600)
+    bad = failing(out, 'failing') if rc == 0 else None
+    n_bad = 0
+    if bad is None:
+        ctx.log('GlueCases.v failed to compile:', err[-600:])
+        ctx.violation('tie-broken', {'stage': 'GlueCases.v'}, 'case file compiles', err[-300:],
+                      'validation of gen/Glue.v', found_input=False,
+                      signature={'kind': 'case-file', 'file': 'GlueCases'})
+        return len(tasks), 1
+    byid = {t['id']: t for t in tasks}
+    seen = set()
+    for i in bad:
+        t = byid[i]
+        n_bad += 1
+        sig = (t['kind'], str(t.get('raise')), str(t.get('abs'))) if t['kind'] == 'validate' else \
+            (t['kind'], t['stored'] is None, len(t['options']))
+        if sig in seen:
+            continue
+        seen.add(sig)
+        if t['kind'] == 'validate':
+            ctx.violation('correspondence' if translated else 'impl-violation',
+                          {'method': '_validate_metric', 'values': [float.fromhex(v) for v in t['values']],
+                           'raise_negative_metric': t['raise'], 'return_abs_metric': t['abs']},
+                          'raises iff raise_negative and a value is negative; otherwise element k of the result '
+                          'is (the absolute value of) element k -- whatever the other elements are',
+                          {k: ([float.fromhex(v) for v in res[i][k]] if k == 'values' else res[i][k])
+                           for k in ('values', 'error') if k in res[i]},
+                          'C11_validate_metric_spec (gen/Glue.v evaluated in Coq vs the method)',
+                          found_input=True,
+                          signature={'kind': 'glue-validate', 'raise': str(t['raise']), 'abs': str(t['abs'])},
+                          what='_validate_metric does not act elementwise as ' +
+                               ('translated' if translated else 'specified (reference semantics)'))
+        else:
+            ctx.violation('correspondence' if translated else 'impl-violation',
+                          {'method': '_slot_answers', 'stored': t['stored'], 'options': t['options']},
+                          'answers iff the stored option tuple equals the asked one (or nothing was stored by '
+                          'these methods)', {'answers': res[i].get('answers')},
+                          'C11_slot_history_* (gen/Glue.v evaluated in Coq vs the method)', found_input=True,
+                          signature={'kind': 'glue-slot-answers', 'stored_none': t['stored'] is None,
+                                     'n_options': len(t['options'])},
+                          what='_slot_answers differs from ' +
+                               ('its translation' if translated else 'the reference semantics'))
+    for t in crashed:
+        n_bad += 1
+        ctx.violation('correspondence', {k: t.get(k) for k in ('kind', 'values', 'raise', 'abs', 'stored', 'options')},
+                      'method runs', res[t['id']], 'validation of gen/Glue.v', found_input=True,
+                      signature={'kind': 'glue-crash', 'method': t['kind']})
+    ctx.notes['glue_validation'] = {'validate_cases': n_val, 'slot_answers_cases': len(tasks) - n_val,
+                                    'disagreements': n_bad, 'translated': translated}
+    return len(tasks), n_bad
+
+
 # ------------------------------------------------ 2. entry-point correspondence
 def gen_meshes(ctx):
     rng = ctx.rng
@@ -275,16 +409,16 @@ def entry_tasks(ctx, meshes, skip=0, first_id=0):
     return tasks
 
 
-def entry_call(t, which, name):
+def entry_call(t, which, name, ops='QOps'):
     """which = 'impl' (faithful to the translated mixed-branch assignment) or 'spec'"""
     e = t['entry']
     b = lambda x: 'true' if x else 'false'   # noqa
     if e in ('areas', 'volumes'):
-        return (f'{which}_{e} QOps {lib.coq_str(t["mode"])} {b(t["raise"])} {b(t["abs"])} '
+        return (f'{which}_{e} {ops} {lib.coq_str(t["mode"])} {b(t["raise"])} {b(t["abs"])} '
                 f'nodes_{name} blocks_{name}')
     if e == 'metrics':
-        return f'{which}_metrics QOps {b(t["raise"])} {b(t["abs"])} nodes_{name} blocks_{name}'
-    return f'{which}_normals QOps {lib.coq_str(t["mode"])} nodes_{name} blocks_{name}'
+        return f'{which}_metrics {ops} {b(t["raise"])} {b(t["abs"])} nodes_{name} blocks_{name}'
+    return f'{which}_normals {ops} {lib.coq_str(t["mode"])} nodes_{name} blocks_{name}'
 
 
 def entry_tol(t, mesh):
@@ -778,13 +912,162 @@ def farfield_stream(ctx, model_ok, centroid_f32=True):
     return len(tasks), n_bad
 
 
+# ------------- 4c. graded meshes: element sizes many orders of magnitude apart in ONE call
+# The metric of an element depends only on its own shape -- not on what else is in the mesh.
+# Tensor-product graded lattices (boundary-layer corner): the first cell layer along every axis has
+# width h, all others width 1, so one mesh holds cells of volume h^3, h^2, h and 1 (areas h^2, h, 1);
+# h ~ 1e-3, 1e-5, 1e-7 gives metric ratios from 1e-3 down to 1e-21 inside one call.  An overall
+# length scale (1, ~2e-3, ~2e2) and an integer matrix (incl. mirrored) are applied afterwards.  The
+# model is evaluated over Q on exactly the floats handed to femio; tolerance PER ELEMENT relative to
+# the element's own value (no absolute term): 1e-6 (measured on the unchanged kernels: < 1e-8).
+# Quick tier: dyadic h and scales (the floats are small dyadic rationals, so the evaluation over Q
+# stays cheap); the thorough tier adds the decimal ones (52-bit mantissas everywhere).
+GRADED_H = [2.0 ** -10, 2.0 ** -17, 2.0 ** -23]
+GRADED_SCALE = [1.0, 2.0 ** -9, 2.0 ** 8]
+GRADED_H_DEC = [1e-3, 1e-5, 1e-7]
+GRADED_SCALE_DEC = [1.0, 1.7e-3, 2.3e2]
+
+
+def graded_coord(x, h):
+    """lattice coordinate (integer) -> graded position: first layer of width h, the others 1"""
+    if x <= 0:
+        return float(x)
+    return h + (x - 1)
+
+
+def graded_stream(ctx, model_ok, deep=False):
+    rng = ctx.rng
+    reps = 1 if (ctx.tier == 'quick' and not deep) else 3
+    meshes, tasks = [], []
+    for rep in range(reps):
+        for h in (GRADED_H if rep % 2 == 0 else GRADED_H_DEC):
+            for dim, ks in ((3, ['hex']), (3, ['tet']), (3, ['hex', 'prism', 'pyr', 'tet']),
+                            (2, ['tri', 'quad']), (2, ['quad'])):
+                o = G.random_opts(rng, jitter_ok=False)
+                mat = rng.choice([m for m in G.MATRICES if m[0] in
+                                  ('identity', 'rot90z', 'shear', 'general', 'reflect_z', 'cyclic', 'aniso')])
+                o.update(matrix=G.MATRICES[0], t=[0, 0, 0], extra_nodes=0)
+                base = G.solid_mesh(rng, ks, o, dims=(2, 2, 2)) if dim == 3 else \
+                    G.shell_mesh(rng, ks, dict(o, ragged=False), dims=(2, 2))
+                sc = rng.choice(GRADED_SCALE if rep % 2 == 0 else GRADED_SCALE_DEC)
+                coords = []
+                for row in base['coords']:
+                    g = [graded_coord(x, h) for x in row]
+                    coords.append([float(sum(mat[1][i][j] * g[j] for j in range(3))) * sc for i in range(3)])
+                base = dict(base, coords=coords)
+                base['meta'] = dict(base['meta'], h=h, scale=sc, matrix=mat[0], det=G.det3(mat[1]),
+                                    coord_dtype='float64')
+                meshes.append(base)
+    for mi, mesh in enumerate(meshes):
+        m = {k: mesh[k] for k in ('node_ids', 'coords', 'blocks')}
+        if mesh['meta']['dim'] == 3:
+            calls = [('volumes', mo, False, False) for mo in c11_kernels.MODES] + \
+                    [('metrics', None, False, True), ('volumes', 'centroid', True, False)]
+        else:
+            calls = [('areas', mo, False, True) for mo in c11_kernels.MODES] + [('metrics', None, True, False)]
+        if ctx.tier == 'quick' and not deep:
+            calls = calls[:3] + [rng.choice(calls[3:])]
+        for entry, mode, rs, ab in calls:
+            tasks.append({'id': len(tasks), 'kind': 'entry', 'entry': entry, 'mode': mode, 'raise': rs,
+                          'abs': ab, 'mesh': m, 'mi': mi})
+    res = run_impl(ctx, tasks, 'graded')
+    defs, done, groups = [], set(), {}
+    n_bad = 0
+    tol = Fraction(1, 10 ** 6)
+    for t in tasks:
+        r = res[t['id']]
+        mesh = meshes[t['mi']]
+        h = mesh['meta']['h']
+        ctx.count('graded:first layer %g x cell' % h)
+        ctx.case(['graded', t['entry'], t['mode'], t['raise'], t['abs'], mesh['coords'], mesh['blocks']],
+                 sample={'stream': 'graded mesh (sizes many orders of magnitude apart in one call)',
+                         'first_layer_width': h, 'length_scale': mesh['meta']['scale'],
+                         'matrix': mesh['meta']['matrix'], 'entry': t['entry'], 'mode': t['mode'],
+                         'min_max_abs_value': (lambda v: [min(v), max(v)] if v else None)(
+                             [abs(float.fromhex(x)) for x in r.get('values', [])])})
+        if 'values' not in r and 'error' not in r:
+            n_bad += 1
+            ctx.violation('impl-violation', {'stream': 'graded', **{k: t[k] for k in ('entry', 'mode', 'mesh')}},
+                          'entry point returns', {k: r.get(k) for k in ('error', 'crash')}, 'graded-mesh stream',
+                          found_input=True, signature={'kind': 'graded-error', 'entry': t['entry']})
+            continue
+        if t['mi'] not in done:
+            done.add(t['mi'])
+            defs.append(mesh_defs_q(f'g{t["mi"]}', mesh['node_ids'],
+                                    [[Fraction(x) for x in row] for row in mesh['coords']], mesh['blocks']))
+        cl = f'(close 0 {qf(tol)})'
+        call = entry_call(t, 'spec', f'g{t["mi"]}', ops='QOpsHP')   # square roots to 2^-62 RELATIVE
+        if 'error' in r:
+            test = 'raise_ok m' if (r['error'] == 'ValueError' and t['raise']) else f'agree {cl} m None'
+        else:
+            rows = [f'({zlit(i)}, {qf(hexq(v))})' for i, v in zip(r['ids'], r['values'])]
+            test = f'agree {cl} m (Some {lib.coq_list(rows)})'
+        groups.setdefault(call, []).append((t['id'], test))
+    bad = []
+    if model_ok and groups:
+        text = HEADER + 'From FV.C11 Require Import CheckRel.\n' + '\n'.join(defs) + '\n' + \
+            grouped_cases(groups) + \
+            'Goal True. idtac "@@ failing". Abort.\n' \
+            'Eval vm_compute in map fst (filter (fun c => negb (snd c)) cases).\n'
+        rc, out, err = ctx.coq_eval('GradedCases', text, timeout=900)
+        bad = failing(out, 'failing') if rc == 0 else None
+        if bad is None:
+            ctx.log('GradedCases.v failed to compile:', err[-600:])
+            ctx.violation('tie-broken', {'stage': 'GradedCases.v'}, 'case file compiles', err[-300:],
+                          'graded-mesh stream', found_input=False,
+                          signature={'kind': 'case-file', 'file': 'GradedCases'})
+            bad = []
+            n_bad += 1
+    byid = {t['id']: t for t in tasks}
+    for i in bad:
+        t = byid[i]
+        mesh = meshes[t['mi']]
+        n_bad += 1
+        vals = [float.fromhex(v) for v in res[i].get('values', [])]
+        ctx.violation('impl-violation',
+                      {'stream': 'graded', 'entry': t['entry'], 'mode': t['mode'], 'raise_negative': t['raise'],
+                       'return_abs': t['abs'], 'mesh': t['mesh'], 'first_layer_width': mesh['meta']['h'],
+                       'length_scale': mesh['meta']['scale'], 'matrix': mesh['meta']['matrix']},
+                      'every element has the value of the exact model on its own nodes, within 1e-6 of THAT '
+                      "element's value, whatever the size of the other elements in the call",
+                      {'ids': res[i].get('ids'), 'values': vals, 'error': res[i].get('error'),
+                       'zeros': sum(1 for v in vals if v == 0.0)},
+                      'C11_block_rows / C11_validate_elementwise: a value depends on the element\'s own nodes only',
+                      found_input=True,
+                      signature={'kind': 'graded', 'entry': t['entry'], 'mode': t['mode'],
+                                 'kinds': '+'.join(mesh['meta']['kinds']), 'h': mesh['meta']['h']},
+                      what=f'{t["entry"]}({t["mode"]}) of small elements changes when much larger elements '
+                           f'are in the same call (size ratio {mesh["meta"]["h"]:g} per axis)')
+    ctx.notes['graded_stream'] = {'cases': len(tasks), 'model_evaluations': len(groups), 'failures': n_bad}
+    return len(tasks), n_bad
+
+
 # --------------------------- 5. option histories on one object (signs are part of the model)
-def history_stream(ctx, model_ok):
+def one_option_pairs(entry):
+    """ordered pairs of option tuples (mode, raise_negative, return_abs) of an entry point that
+    differ in exactly one component (calculate_element_metrics has no mode)"""
+    modes = [None] if entry == 'metrics' else list(c11_kernels.MODES)
+    tuples = [(mo, r, a) for mo in modes for r in (False, True) for a in (False, True)]
+    return [(a, b) for a in tuples for b in tuples if sum(x != y for x, y in zip(a, b)) == 1]
+
+
+def grouped_cases(groups):
+    """groups: {model call expression: [(case id, test applied to the model value `m`)]};
+    the model is evaluated ONCE per group (`let m := ... in`)"""
+    parts = []
+    for call, items in groups.items():
+        rows = ';\n    '.join(f'({i}%nat, {test})' for i, test in items)
+        parts.append(f'(let m := ({call}) in\n   [{rows}])')
+    return 'Definition cases : list (nat * bool) :=\n  ' + '\n  ++ '.join(parts + ['[]']) + '.\n'
+
+
+def history_stream(ctx, model_ok, deep=False):
     """several calls with different (mode, raise_negative, return_abs) on ONE object, on
     mirrored (det M < 0) and ordinary, single-type and mixed meshes; every call must answer
     like the model for exactly its own options"""
     rng = ctx.rng
-    n = 3 if ctx.tier == 'quick' else 12
+    quick = ctx.tier == 'quick' and not deep
+    n = 3 if quick else 12
     meshes, tasks = [], []
     mirrored = [m for m in G.MATRICES if G.det3(m[1]) < 0]
     for rep in range(n):
@@ -817,13 +1100,34 @@ def history_stream(ctx, model_ok):
                          {'entry': 'volumes', 'mode': 'centroid', 'raise': False, 'abs': False},
                          {'entry': 'volumes_default', 'mode': 'centroid', 'raise': True, 'abs': False}]
             tasks.append({'id': len(tasks), 'kind': 'history', 'mesh': m, 'mi': mi, 'calls': calls})
+    # systematic part: on mirrored meshes, for every entry point that keeps a result slot, EVERY
+    # ordered pair of option tuples that differ in exactly one option (mode / raise_negative /
+    # return_abs), asked one after the other on one object (and the first one once more)
+    n_random = len(tasks)
+    pair_meshes = []
+    for dim, ks in ((3, ['tet']), (3, ['hex', 'prism', 'tet']), (2, ['tri', 'quad'])) + \
+            (() if quick else ((3, ['hex']), (3, ['prism', 'tet']), (2, ['quad']))):
+        o = G.random_opts(rng, jitter_ok=False)
+        o['matrix'] = rng.choice(mirrored)
+        o['shuffle_elems'] = rng.random() < 0.5
+        meshes.append(G.solid_mesh(rng, ks, o, dims=(2, 1, 1)) if dim == 3
+                      else G.shell_mesh(rng, ks, dict(o, ragged=False)))
+        pair_meshes.append(len(meshes) - 1)
+    for mi in pair_meshes:
+        mesh = meshes[mi]
+        m = {k: mesh[k] for k in ('node_ids', 'coords', 'blocks')}
+        for e in (['volumes', 'metrics'] if mesh['meta']['dim'] == 3 else ['areas', 'metrics']):
+            for a, b in one_option_pairs(e):
+                calls = [{'entry': e, 'mode': x[0], 'raise': x[1], 'abs': x[2]} for x in (a, b, a)]
+                tasks.append({'id': len(tasks), 'kind': 'history', 'mesh': m, 'mi': mi, 'calls': calls,
+                              'systematic': True})
     res = run_impl(ctx, tasks, 'history')
-    defs, items, done = [], [], set()
+    defs, items, done, groups = [], [], set(), {}
     n_bad = 0
     for t in tasks:
         r = res[t['id']]
         mesh = meshes[t['mi']]
-        ctx.count('history:' + ('mirrored' if mesh['meta']['det'] < 0 else 'not mirrored') + ':' +
+        ctx.count('history:' + ('one-option pairs:' if t.get('systematic') else 'random:') + ('mirrored' if mesh['meta']['det'] < 0 else 'not mirrored') + ':' +
                   ('mixed' if mesh['meta']['mixed'] else 'single type'))
         ctx.case(['history', t['calls'], mesh['node_ids'], mesh['coords'], mesh['blocks']],
                  sample={'stream': 'option history on one object', 'calls': t['calls'],
@@ -846,19 +1150,20 @@ def history_stream(ctx, model_ok):
             call = entry_call(tt, 'spec', f'h{t["mi"]}')
             if 'error' in rr:
                 if rr['error'] == 'ValueError' and truthy(c['raise']) and not vec:
-                    items.append((16 * t['id'] + k, f'raise_ok ({call})'))
+                    test = 'raise_ok m'
                 else:
-                    items.append((16 * t['id'] + k, f'agree {cl} ({call}) None'))
+                    test = f'agree {cl} m None'
             elif vec:
                 rows = [f'({zlit(i)}, {v3flit([hexq(x) for x in v])})' for i, v in zip(rr['ids'], rr['values'])]
-                items.append((16 * t['id'] + k, f'agree {cl} ({call}) (Some {lib.coq_list(rows)})'))
+                test = f'agree {cl} m (Some {lib.coq_list(rows)})'
             else:
                 rows = [f'({zlit(i)}, {qf(hexq(v))})' for i, v in zip(rr['ids'], rr['values'])]
-                items.append((16 * t['id'] + k, f'agree {cl} ({call}) (Some {lib.coq_list(rows)})'))
+                test = f'agree {cl} m (Some {lib.coq_list(rows)})'
+            items.append(16 * t['id'] + k)
+            groups.setdefault(call, []).append((16 * t['id'] + k, test))
     bad = []
     if model_ok and items:
-        text = HEADER + '\n'.join(defs) + '\nDefinition cases : list (nat * bool) := [' + \
-            ';\n'.join(f'({i}%nat, {e})' for i, e in items) + '].\n' \
+        text = HEADER + '\n'.join(defs) + '\n' + grouped_cases(groups) + \
             'Goal True. idtac "@@ failing". Abort.\n' \
             'Eval vm_compute in map fst (filter (fun c => negb (snd c)) cases).\n'
         rc, out, err = ctx.coq_eval('HistoryCases', text, timeout=900)
@@ -892,7 +1197,10 @@ def history_stream(ctx, model_ok):
                       what=f'call {k} ({c["entry"]}, raise={c["raise"]}, abs={c["abs"]}) after '
                            f'{[(p["entry"], p["raise"], p["abs"]) for p in t["calls"][:k]]} on one object '
                            'does not answer for its own options')
-    ctx.notes['history_stream'] = {'histories': len(tasks), 'calls_compared': len(items), 'failures': n_bad}
+    ctx.notes['history_stream'] = {'histories': len(tasks), 'random_histories': n_random,
+                                   'one_option_pair_histories': len(tasks) - n_random,
+                                   'calls_compared': len(items), 'model_evaluations': len(groups),
+                                   'failures': n_bad}
     return len(tasks), n_bad
 
 
@@ -930,10 +1238,31 @@ def main(ctx):
         tie_ok = False
         ctx.log('translator failed closed:', e)
         ctx.notes['translator_error'] = str(e)
+    # 1b. the glue (_validate_metric, _slot_answers, option tuples): translated when inside the
+    # grammar; otherwise the REFERENCE semantics are emitted (tie H: pinned by the streams below,
+    # which then run at thorough depth) -- a rewrite of the glue alone is not a violation
+    glue_translated = False
+    try:
+        gmodel, gconsumed = c11_glue.translate(str(lib.REPO))
+        ctx.sources.update(gconsumed)
+        lib.write_if_changed(lib.COQ / 'C11' / 'gen' / 'Glue.v', c11_glue.emit(gmodel))
+        glue_translated = True
+        ctx.notes['glue_translator'] = {'translated': True}
+    except (c11_glue.TranslateError, SyntaxError) as e:
+        lib.write_if_changed(lib.COQ / 'C11' / 'gen' / 'Glue.v',
+                             c11_glue.emit(c11_glue.REFERENCE, translated=False))
+        ctx.log('glue outside the translator grammar (reference semantics + deeper search):', e)
+        ctx.notes['glue_translator'] = {
+            'translated': False, 'error': str(e),
+            'policy': 'gen/Glue.v holds the reference semantics; the PropsGlue theorems are then about the '
+                      'reference, tied to the code by correspondence only (glue validation, option-history and '
+                      'graded-mesh streams at thorough depth)'}
+    deep = not glue_translated
     # 2. proofs
     proof_ok = False
     if tie_ok:
-        proof_ok, log = ctx.build_props('C11/Props.v', extra_targets=['C11/Check.vo', 'C11/BrickCheck.vo'])
+        proof_ok, log = ctx.build_props('C11/Props.v', extra_targets=['C11/Check.vo', 'C11/BrickCheck.vo',
+                                                                      'C11/CheckRel.vo'])
         if not proof_ok:
             ctx.notes['build_log_tail'] = log[-2500:]
     else:
@@ -942,16 +1271,31 @@ def main(ctx):
                                     'note': 'translator failed closed'})
     model_ok = tie_ok
     if tie_ok and not proof_ok:
-        ok, log, _ = lib.coq_make(['C11/Check.vo', 'C11/BrickCheck.vo', 'C11/gen/Kernels.vo', 'C11/Entry.vo'])
+        ok, log, _ = lib.coq_make(['C11/Check.vo', 'C11/BrickCheck.vo', 'C11/CheckRel.vo',
+                                   'C11/gen/Kernels.vo', 'C11/Entry.vo'])
         model_ok = ok
         if not ok:
             ctx.notes['model_build_log_tail'] = log[-1500:]
+    glue_proof_ok = None
+    if model_ok:
+        glue_proof_ok, glog = ctx.build_props('C11/PropsGlue.v')
+        if not glue_proof_ok:
+            ctx.notes['glue_build_log_tail'] = glog[-2000:]
+            okg, _, _ = lib.coq_make(['C11/gen/Glue.vo'])
+            if not okg:
+                # the emitted glue does not even type-check: fall back to the reference for the streams
+                lib.write_if_changed(lib.COQ / 'C11' / 'gen' / 'Glue.v',
+                                     c11_glue.emit(c11_glue.REFERENCE, translated=False))
+                lib.coq_make(['C11/gen/Glue.vo'])
+            deep = True
     n_viol_before = len(ctx.violations)
     # 3. translator validation
     if model_ok:
         nk, nk_bad = validate_translator(ctx, model)
         ctx.log(f'translator validation: {nk} kernel evaluations, {nk_bad} disagreements')
         ctx.notes['translator_validation'] = {'cases': nk, 'disagreements': nk_bad}
+        ng, ng_bad = validate_glue(ctx, glue_translated)
+        ctx.log(f'glue validation: {ng} cases, {ng_bad} disagreements')
     # 4. entry points: implementation (corpus first)
     meshes, corpus_calls = [], []
     for f in sorted((lib.VERIF / 'corpus' / PID).glob('*.json')):
@@ -1024,10 +1368,16 @@ def main(ctx):
                                      'block_ids_ascending_in_storage': not meta['unsorted_block']},
                           what=f'calculate_element_{t["entry"]}: values attached to the wrong element ids')
     # 5. oracles on the implementation
+    ctx.log(f'entry-point correspondence: {len(tasks)} cases, {n_corr_bad} tie / {n_prop_bad} property disagreements')
     n_aff_bad = oracle_affine(ctx, meshes, tasks, res)
     n_brick, n_brick_bad = oracle_brick(ctx, model_ok)
+    ctx.log(f'brick: {n_brick} cases, {n_brick_bad} failures')
     n_motion, n_motion_bad = motion_stream(ctx, model_ok)
-    n_hist, n_hist_bad = history_stream(ctx, model_ok)
+    ctx.log(f'same-object motion: {n_motion} cases, {n_motion_bad} failures')
+    n_hist, n_hist_bad = history_stream(ctx, model_ok, deep)
+    ctx.log(f'option histories: {n_hist} histories, {n_hist_bad} failures')
+    n_graded, n_graded_bad = graded_stream(ctx, model_ok, deep)
+    ctx.log(f'graded meshes: {n_graded} cases, {n_graded_bad} failures')
     centroid_f32 = model is None or any(
         k['py'].endswith('_centroid') and 'volumes' in k['py'] and any(F32_KERNELS_NOTE in x for x in k['notes'])
         for k in model['kernels'])
@@ -1036,10 +1386,12 @@ def main(ctx):
         'origin at 2e-3' if centroid_f32 else
         'local origin, float64: supported range assumed <= 1e7 cell sizes from the origin at 1e-7')
     n_far, n_far_bad = farfield_stream(ctx, model_ok, centroid_f32)
+    ctx.log(f'far field: {n_far} cases, {n_far_bad} failures')
     ctx.notes['search_evaluations'] = len(tasks) + n_brick + n_motion
     ctx.notes['impl_property_failures'] = {'assembly': n_prop_bad, 'closed_form': n_aff_bad,
                                            'brick': n_brick_bad, 'same_object_motion': n_motion_bad,
-                                           'option_history': n_hist_bad, 'farfield': n_far_bad}
+                                           'option_history': n_hist_bad, 'farfield': n_far_bad,
+                                           'graded': n_graded_bad}
     # 6. broken tie / proof without a failing input
     found_any = len(ctx.violations) > n_viol_before or ctx.known
     if not tie_ok and not found_any:
@@ -1054,6 +1406,21 @@ def main(ctx):
                       ', '.join(bad)[:300],
                       found_input=len(ctx.violations) > n_viol_before,
                       signature={'kind': 'proof-broken'})
+    if glue_proof_ok is False:
+        names = lib.theorem_names(lib.COQ / 'C11' / 'PropsGlue.v')
+        bad = [o['name'] for o in ctx.obligations if not o['discharged'] and o['name'] in names]
+        ctx.violation('proof-broken', {'theorems': bad, 'glue_translated': glue_translated,
+                                       'log': ctx.notes.get('glue_build_log_tail', '')[-600:]},
+                      'the theorems of C11/PropsGlue.v check against the regenerated gen/Glue.v '
+                      '(_validate_metric elementwise and idempotent; stored results option-history independent)',
+                      'do not check', ', '.join(bad)[:300],
+                      found_input=len(ctx.violations) > n_viol_before,
+                      signature={'kind': 'proof-broken', 'file': 'PropsGlue'})
+    if ctx.tier == 'thorough' and proof_ok and glue_proof_ok:
+        if not ctx.coqchk('C11/PropsGlue.v'):
+            ctx.violation('proof-broken', {'coqchk': ctx.notes.get('coqchk')},
+                          'coqchk accepts C11/PropsGlue.vo and its dependencies', 'rejected',
+                          'coqchk FV.C11.PropsGlue', found_input=False, signature={'kind': 'coqchk-glue'})
     if ctx.tier == 'thorough' and proof_ok:
         if not ctx.coqchk('C11/Props.v'):
             ctx.violation('proof-broken', {'coqchk': ctx.notes.get('coqchk')},
